@@ -4,7 +4,7 @@
    is flagged, so it is reported invalid even on the last byte of a read. *)
 From Via Require Import M_Char M_Parse M_Receive P_Parse.
 From Via Require Import P_Frag P_FragC P_Term P_TermC.
-From Via Require Import M_Imp M_Loop M_Hdr Gen_Parse P_Imp P_Loop P_Hdr.
+From Via Require Import M_Imp M_Loop M_Hdr M_Msg Gen_Parse P_Imp P_Loop P_Hdr P_Msg.
 From Via Require Import M_Client P_Client.
 Local Open Scope N_scope.
 
@@ -182,3 +182,11 @@ Theorem C07_header_block_is_the_source : forall L h buf fuel, hd_ok h -> (length
   Some (let '(h', rest, p) := hd_parse L h buf in (is_done p, hd_store h', rest)).
 Proof. exact hd_parse_is_the_source. Qed.
 Print Assumptions C07_header_block_is_the_source.
+
+(* rx_response::parse(iter, end): status line, then header block, then valid - the model's rp_parse is the translated
+   source (see Properties_C01.v for the request side) *)
+Theorem C07_response_head_is_the_source : forall L q buf fuel, hd_ok (rp_headers q) -> (length buf + 2 <= fuel)%nat ->
+  mrun (sl_lim L) (fl_lim L) (hd_lim L) (sl_code_of L) (hd_code_of L) fuel rs_parse_src (rp_store q) buf =
+  Some (let '(q', rest, p) := rp_parse L q buf in (is_done p, rp_store q', rest)).
+Proof. exact rp_parse_is_the_source. Qed.
+Print Assumptions C07_response_head_is_the_source.
